@@ -833,24 +833,38 @@ def run(env, res):
         rp = json.load(open(env['replay']))
         cases = [case_from_json(rp['case'])]
     else:
-        per = 150 if tier == 'quick' else 4000
-        focuses = STREAM_OPS + TERMINAL_OPS
-        cases = [gen_case(rng, f) for f in focuses for _ in range(per)]
-        cases += [gen_sec_case(rng, f) for f in SEC_KINDS for _ in range(per)]
+        cases = None
+    focuses = STREAM_OPS + TERMINAL_OPS
+
+    def chunks():
+        """the quick tier's 150 cases per focus; thorough: then rounds of 50 more per focus (up to 4000), generated as they
+        are needed - the tier is sized by wall clock (every real run sits under a watchdog)"""
+        if cases is not None:
+            yield cases
+            return
+        yield [gen_case(rng, f) for f in focuses for _ in range(150)] + [gen_sec_case(rng, f) for f in SEC_KINDS for _ in range(150)]
         if tier != 'quick':
-            # thorough is sized by wall clock (every real run sits under a watchdog): 150 cases of every focus first, the
-            # rest round-robin over the focuses until the budget is used up (said in the evidence)
-            n_f = len(focuses) + len(SEC_KINDS)
-            blocks = [cases[i * per:(i + 1) * per] for i in range(n_f)]
-            cases = [c for b in blocks for c in b[:150]] + [b[j] for j in range(150, per) for b in blocks]
+            for _ in range(77):
+                yield [gen_case(rng, f) for f in focuses for _ in range(50)] + [gen_sec_case(rng, f) for f in SEC_KINDS for _ in range(50)]
+
     t0 = time.time()
     budget = float(os.environ.get('VERIF_THOROUGH_S') or 480)
     hist = dict(second_arg={}, skipped=0, exact_pulls=0, exact_apps=0, run=0, real_err=0, by_focus={}, k={}, stages={}, slack_pulls={}, slack_apps={})
-    quick_part = len(cases) if (tier == 'quick' or env['replay']) else 150 * (len(STREAM_OPS + TERMINAL_OPS) + len(SEC_KINDS))
-    for case, mr in answered(drv, cases, 950):
-        if hist['run'] + hist['skipped'] >= quick_part and time.time() - t0 > budget:
-            hist['stopped_by_wall_clock_budget_s'] = budget
-            break
+    generated, last = 0, 0.0
+
+    def pairs():
+        nonlocal generated, last
+        for n, chunk in enumerate(chunks()):
+            if n and (time.time() - t0) + 1.2 * last > budget:
+                hist['stopped_by_wall_clock_budget_s'] = budget
+                return
+            t1 = time.time()
+            generated += len(chunk)
+            for pair in answered(drv, chunk, 950):
+                yield pair
+            last = time.time() - t1
+
+    for case, mr in pairs():
         f, info = evaluate_case(case, mr)
         text = case_text(case)
         ran = not info.get('skipped')
@@ -890,7 +904,7 @@ def run(env, res):
             res.fail(g[0], key[:60], g[1], case_to_json(small))
             if len(res.failures) >= 8 or sum('watchdog' in x.what for x in res.failures) >= 2:
                 break
-    hist['cases_generated'] = len(cases)
+    hist['cases_generated'] = generated
     hist['engine_family_members'] = {'%s:%s' % (how, json.dumps(ENGINE_DELTAS[i], sort_keys=True) if ENGINE_DELTAS[i] else 'base options'): n
                                      for (i, how), n in sorted(MEMBER_HIST.items())}
     res.extra['histogram'] = hist
